@@ -23,11 +23,42 @@ def ev(**kw) -> dict:
     return e
 
 
+def to_nd(t: Term):
+    from .terms import arr_shape, to_ndarray
+    return to_ndarray(t, len(arr_shape(t)))
+
+
+def user_atom_class():
+    """A class defined in the running program's __main__ (as a user's script would): cloudpickle must store its instances
+    by value for them to load in another interpreter."""
+    import __main__
+    if not hasattr(__main__, "UserAtom"):
+        exec("class UserAtom:\n"
+             "    def __init__(self, a): self._pfverif_atom = a\n"
+             "    def __eq__(self, o): return type(o).__name__ == 'UserAtom' and self._pfverif_atom == o._pfverif_atom\n"
+             "    def __hash__(self): return hash(self._pfverif_atom)\n"
+             "    def __repr__(self): return self._pfverif_atom\n", __main__.__dict__)  # noqa: S102
+    return __main__.UserAtom
+
+
+def _wrap_user(t: Term):
+    if t.f == "#arr":
+        return Term("#arr", tuple(_wrap_user(x) for x in t.a)) if False else t
+    return t
+
+
 def inputs_to_py(inputs: list[list], kinds: dict[str, str] | None = None) -> dict[str, Any]:
-    """[[name, value-json]] -> python inputs; arrays of rank 1 as list or ndarray (kinds[name]), rank>=2 ndarray."""
+    """[[name, value-json]] -> python inputs; arrays of rank 1 as list or ndarray (kinds[name]), rank>=2 ndarray.
+    kinds[name] == "userclass": a list whose elements are instances of a class defined in __main__."""
     out: dict[str, Any] = {}
     for name, vj in inputs:
         t = from_json(vj)
+        if (kinds or {}).get(name) == "userclass":
+            cls = user_atom_class()
+            out[name] = [cls(x.f) for x in t.a] if t.f == "#arr" and all(not y.a for y in t.a) else cls(t.f) if not t.a else t
+            if isinstance(out[name], Term):
+                out[name] = list(to_nd(t))
+            continue
         if t.f != "#arr":
             out[name] = t
             continue
